@@ -3,7 +3,7 @@
    callback on every run).  Every proof is `exact <lemma>`. *)
 From Coq Require Import List Bool Arith.
 From RecordUpdate Require Import RecordSet.
-From GW Require Import Proto ProtoEvolves ProtoProps ProtoBound Callbacks CallbackGen CallbackRefine CallbackSend.
+From GW Require Import Proto ProtoEvolves ProtoProps ProtoBound Callbacks CallbackGen CallbackRefine CallbackSend Coroutines CoroutineGen CoroutineRefine.
 Import ListNotations RecordSetNotations.
 
 (* in every reachable state the retry counter is within the configured budget (any interleaving, any number of callers) *)
@@ -56,6 +56,15 @@ Theorem C04_send_request_sync_is_the_model : forall s k d t,
   end.
 Proof. exact do_send_refined. Qed.
 
+(* the except clauses of send_request (which exceptions lead to a retry, which steps precede the recursive call) and the wait_for around
+   the TCP connect, as emitted from the current source by tools/co2v.py, determine the model's exception handling *)
+Theorem C04_except_clauses_are_the_model : forall again s k d e,
+  sr_exception again s k d e = g_sr_exception again (sr_shape_of (s_kind s)) s k d e.
+Proof. exact sr_exception_refined. Qed.
+
+Theorem C04_wait_for_is_the_model : forall s, (match s_kind s with TCP => true | UDP => false end) = sh_wait_for (sr_shape_of (s_kind s)).
+Proof. exact wait_for_refined. Qed.
+
 Print Assumptions C04_retry_bounded.
 Print Assumptions C04_budget_exhausted.
 Print Assumptions C04_retry_consumes_one.
@@ -64,3 +73,5 @@ Print Assumptions C04_udp_timeout_mechanism_is_the_model.
 Print Assumptions C04_tcp_timeout_mechanism_is_the_model.
 Print Assumptions C04_max_retries_reached_is_the_model.
 Print Assumptions C04_send_request_sync_is_the_model.
+Print Assumptions C04_except_clauses_are_the_model.
+Print Assumptions C04_wait_for_is_the_model.
